@@ -239,7 +239,9 @@ def check_single(arg):
             o.platform = dst
             b = [c for m in o.items for c in cisco_ref.read_address(sc_strip(m.line).split(), 0, dst, None, mask_is_subnet=(dst == "ios"))[0]]
             same = sets.union_equal(a, b) is None and len(a) == len(b)
-            v = []
+            # members of an IOS object-group carry no sequence numbers
+            v = [f"member {m.line!r} starts with a sequence number" for m in o.items
+                 if dst == "ios" and m.line.split()[0].isdigit() and not cisco_ref.is_ip(m.line.split()[0])]
             t1 = o.line
             o.platform = src
             o.platform = dst
@@ -303,7 +305,8 @@ def main(chk):
         for a in gen.ADDRS[src]:
             singles.append(("addr", a, src))
     singles += [("group", ["host 10.0.0.1", "10.0.0.0 255.255.255.0", "10.0.2.0 255.255.254.0"], "ios"),
-                ("group", ["host 10.0.0.1", "10.0.0.0/24", "10 10.0.2.0/23"], "nxos"), ("group", ["10.0.0.0/24", "20 10.0.1.0/24"], "nxos")]
+                ("group", ["host 10.0.0.1", "10.0.0.0/24", "10 10.0.2.0/23"], "nxos"), ("group", ["10.0.0.0/24", "20 10.0.1.0/24"], "nxos"),
+                ("group", ["10 10.0.0.0/24", "20 host 1.1.1.1", "30 10.0.1.0/24", "40 10.0.0.9/32"], "nxos")]
     res = pmap(check_single, singles)
     viol = 0
     for fails, _ in res:
